@@ -17,7 +17,8 @@ NEG_SLICE_EXEMPT = {
 def pitfalls(ctx, rule, files):
     ctx.explain(f"{rule}: in the property's anchored files (a) a slice `x[-n:]` with a non-constant n is reached only where n is known "
                 "to be non-zero (for n == 0 it is the whole sequence); (b) tests for DIFFERENT keys of one mapping are not chained "
-                "with elif (`if 'a' in d: .. elif 'b' in d: ..` handles only one of two independent entries).")
+                "with elif (`if 'a' in d: .. elif 'b' in d: ..` handles only one of two independent entries); (c) tolerances handed "
+                "positionally to np.allclose / np.isclose come in numpy's order (rtol, atol).")
     rels = {x[len("strawberryfields/"):] if x.startswith("strawberryfields/") else x for x in files}
     n = 0
     for f in ctx.tree.all_functions():
@@ -56,6 +57,15 @@ def pitfalls(ctx, rule, files):
                                     ok = True
                         ctx.ob(rule, f.site, ok, "" if ok else f"`{ast.unparse(sub)[:50]}` is not guarded by `{q} > 0`: for {q} == 0 "
                                "the slice is the whole sequence", role="neg-slice-guard", line=sub.lineno)
+            if isinstance(sub, ast.Call) and (dotted(sub.func) or "").split(".")[-1] in ("allclose", "isclose") and len(sub.args) >= 3:
+                # numpy's positional order is (a, b, rtol, atol)
+                t3 = ast.unparse(sub.args[2]).lower()
+                t4 = ast.unparse(sub.args[3]).lower() if len(sub.args) > 3 else ""
+                n += 1
+                ok = "atol" not in t3 and "rtol" not in t4
+                ctx.ob(rule, f.site, ok, "" if ok else f"`{ast.unparse(sub)[:60]}` passes the tolerances positionally in the order "
+                       "(atol, rtol); numpy takes (rtol, atol): the absolute tolerance is applied as a relative one", role="tolerance-order",
+                       line=sub.lineno)
             if isinstance(sub, ast.If) and len(sub.orelse) == 1 and isinstance(sub.orelse[0], ast.If):
                 def keytest(e):
                     if isinstance(e, ast.Compare) and len(e.ops) == 1 and isinstance(e.ops[0], ast.In) and \
